@@ -81,8 +81,8 @@ Fixpoint guarded_steps (s : state) (l : list op) : N :=
 Definition chk_path (c : fields * string * (option (string * lkey))) : bool :=
   let '(f, ext, o) := c in
   match gen_format GEN_DEFAULT f, o with
-  | FOk p, None => refuse_location true p
-  | FOk p, Some (text, wh) => negb (refuse_location true p) && ext_bridge p ext && String.eqb (target_text p ext) text && lkey_eqb (target_loc p ext) wh
+  | FOk p, None => refuse_w true true p
+  | FOk p, Some (text, wh) => negb (refuse_w true true p) && ext_bridge p ext && ingest_leads_back p ext && put_leads_back p ext && String.eqb (target_text p ext) text && lkey_eqb (target_loc p ext) wh
   | FOutside, None => true
   | _, _ => false
   end.
